@@ -3,7 +3,7 @@
 plus a focus hint derived from the property's own anchor list) and creates the private worktrees."""
 import json, os, subprocess, sys
 tag = sys.argv[1]
-FOCUS = {
+FOCUS_W2 = {
  'C01': "the coefficient computation and fixed-point normalisation (src/convolution/mod.rs, src/convolution/optimisations.rs) or the portable 16-bit kernels",
  'C02': "one of the SIMD kernels for a less common pixel type (u16x3, u16x2, f32x2, f32x3, u8x3, i32) or the SIMD alpha kernels for 16-bit / float types",
  'C03': "unsafe index arithmetic / pointer offsets in the vertical kernels or the sizing of temporary buffers in src/resizer.rs",
@@ -23,6 +23,27 @@ FOCUS = {
  'C17': "conversions involving i32 and f32, narrowing conversions, and multi-component pixels",
  'C18': "the clipping / saturation at the end of a pass and the 16-bit path",
 }
+FOCUS_W3 = {
+ 'C01': "the SuperSampling path, the non-adaptive Interpolation path, or the floating-point pixel types",
+ 'C02': "the code paths of the SIMD kernels that process several rows at once (4-row / 2-row blocks of the horizontal kernels) for u8, u8x2, u8x3 or the AVX2 16-bit kernels",
+ 'C03': "integer conversions and multiplications on sizes / offsets (u32 / usize) in src/resizer.rs and src/images/*.rs, or the row remainders of the alpha kernels",
+ 'C04': "the buffer-size and alignment checks of the Image / ImageRef / TypedImage / TypedImageRef constructors",
+ 'C05': "SuperSampling, and the choice between the horizontal-only / vertical-only / two-pass paths of the convolution",
+ 'C06': "the u8x2 and f32 alpha kernels, and differences between the two-image and the in-place variants",
+ 'C07': "the handling of alpha = 0 and of very small alpha in the divide kernels / reciprocal tables, and the 16-bit alpha types",
+ 'C08': "the rayon paths of the horizontal pass (row bands), of Nearest and of the alpha multiply / divide operations",
+ 'C09': "state kept in Resizer / MulDiv across calls when the pixel type, the CPU extensions or the algorithm changes between calls",
+ 'C10': "the fixed-point normalisers (Normalizer16 / Normalizer32): precision choice and rounding of coefficients",
+ 'C11': "the column direction (x_in_tab) and up-scaling",
+ 'C12': "the row copying of copy_image for different pixel sizes and cropped destination views",
+ 'C13': "nesting of views (CroppedImage of CroppedImage, TypedCroppedImage::from_ref) and typed versus dynamic entry points",
+ 'C14': "split_by_height_mut / split_by_width_mut of TypedImage (slice splitting arithmetic) and of TypedCroppedImageMut",
+ 'C15': "the clamping of the centering values and the decision which dimension gets cropped",
+ 'C16': "the construction of the 8->16 and 16->8 tables (rounding, end-points)",
+ 'C17': "u16 <-> u8, f32 -> u8 / u16 (rounding, saturation, NaN) and u16 -> i32",
+ 'C18': "the 8-bit horizontal kernels (initial rounding constant, clip) on AVX2",
+}
+FOCUS = FOCUS_W3 if tag.startswith('w3') else FOCUS_W2
 os.makedirs('/tmp/wt', exist_ok=True)
 tmpl = open(os.path.join(os.path.dirname(os.path.abspath(__file__)), 'prompt_template.txt')).read()
 for line in open('/verif/properties.jsonl'):
